@@ -24,6 +24,8 @@ import os as _os
 import signal
 import types
 
+from engine.harness_api import ns
+
 
 class LoopBudget(BaseException):
     """raised by the select stub to leave Arbiter.run() after the scripted number of iterations"""
@@ -261,8 +263,8 @@ def install(A, K):
     """swap module attributes of gunicorn.arbiter (A) for the simulated kernel; returns an undo()."""
     saved = (A.os, A.time, A.select, A.random, A.util, A.sock, A.systemd)
     A.os = FakeOS(K)
-    A.time = types.SimpleNamespace(sleep=K.sleep, time=K.time, monotonic=K.monotonic)
-    A.select = types.SimpleNamespace(select=K.select, error=OSError)
+    A.time = ns("A.time", sleep=K.sleep, time=K.time, monotonic=K.monotonic)
+    A.select = ns("A.select", select=K.select, error=OSError)
     A.random = types.SimpleNamespace(random=lambda: 0.5)
     util_ns = types.SimpleNamespace(**{k: getattr(saved[4], k) for k in dir(saved[4]) if not k.startswith("__")})
     util_ns._setproctitle = lambda t: None
